@@ -84,6 +84,8 @@ type Interp struct {
 	tracing     bool
 	fnCount     map[*ssa.Function]int64
 	sampled     int
+	fmtCaller   *frame
+	fmtDepth    int
 }
 
 type probeBlocked struct{}
